@@ -161,7 +161,7 @@ abbrev Tok := Rule × Str
 
 def nodeTok : Node → Tok
   | .var s => (.variable, s)
-  | .val s => (.quoted, [34] ++ s ++ [34])
+  | .val s => (.quoted, (Node.val s).serialize)
 
 def opToks (op : Str) : List Tok :=
   if op == s_in then [(.kwIn, s_in)]
